@@ -99,10 +99,16 @@ Definition next_delay (c : config) (d : Z) : Z :=
   let n := Z.quot (d * c_mul_num c) (c_mul_den c) in
   if c_max c <? n then c_max c else n.
 
+(** constants of addJitter: (float64(now %% 1000)/1000.0 - 0.5) * 2 *)
+Definition jitter_modulus : Z := 1000.
+Definition jitter_factor : Z := 2.
+
+(** d + d * J * ((x / M) - 1/2) * 2  =  (d*jden*M + d*jnum*(2x - M)) / (jden*M), truncated toward zero *)
 Definition add_jitter (c : config) (t : Z) (d : Z) : Z :=
   if c_jit_num c <=? 0 then d else
-  let x := t mod 1000 in
-  let r := Z.quot (d * c_jit_den c * 500 + d * c_jit_num c * (x - 500)) (c_jit_den c * 500) in
+  let x := t mod jitter_modulus in
+  let r := Z.quot (d * c_jit_den c * jitter_modulus + d * c_jit_num c * (jitter_factor * x - jitter_modulus))
+                  (c_jit_den c * jitter_modulus) in
   if r <? 0 then d else r.
 
 (* ------------------------------------------------------------------ *)
